@@ -228,6 +228,45 @@ PROPS = {
         thorough=plans(dict(build="dbg", nshards=16), dict(build="rel", nshards=16), dict(build="asan", nshards=16, scale=0.2), dict(build="miri", nshards=16, timeout=3000)),
         min_evaluations=50000,
     ),
+    "C23": dict(
+        technique="independent pretty-printer F renders generated record lists in RFC 1035 §5 syntax with random presentation "
+                  "choices; the parser's output (records and line numbers) must equal the generating list",
+        rule="1-8 records per file over 24 class/type pairs (every type with a presentation form, CH A, class-specific types in "
+             "other classes and unknown types via RFC 3597 generic form); owners/targets with labels containing . \\ \" ; ( ) $ @ "
+             "space, tab, NUL, 0xff, 63-octet labels, labels that look like TTLs or classes; per field random choices: omitted "
+             "owner, omitted/reordered TTL and class, TYPEnnn/CLASSnnn, random mnemonic case, relative names, @, $ORIGIN "
+             "(relative too) and $TTL lines, parentheses opened at any field with line breaks and comments inside, quoted and "
+             "unquoted strings, \\DDD and \\c escapes, generic RDATA with 1-4 hex words, CRLF files, tabs, no final newline; input "
+             "fed through a Read that returns 1-7 octets per call half of the time. distinct = sets of presentation features used",
+        assumptions=COMMON_ASSUMPTIONS + ["F is the trusted base: it renders only constructs defined by RFC 1035 §5.1, RFC 2308 §4 ($TTL) and RFC 3597 §5"],
+        quick=plans(dict(build="dbg", nshards=16), dict(build="miri", nshards=4, timeout=900)),
+        thorough=plans(dict(build="dbg", nshards=16), dict(build="rel", nshards=16), dict(build="asan", nshards=16, scale=0.2), dict(build="miri", nshards=16, timeout=3000)),
+        min_evaluations=20000,
+    ),
+    "C24": dict(
+        technique="panic monitor and output-validity oracle over the parser iterator fed with hostile text (through a "
+                  "1-7-octets-per-read stream); three extra next() calls after the end",
+        rule="inputs: random octets (0-120), token soups from 40 syntax tokens (parens, quotes, backslashes, directives, "
+             "mnemonics incl. NULL/OPT/TSIG and TYPE10/41/250, \\#, numbers, addresses), and F-rendered valid files with 1-3 "
+             "mutations (truncate, delete, insert, replace, forbidden type substituted). Every yielded record must have a type "
+             "other than NULL/OPT/TSIG and RDATA accepted by the reference validators; nothing may follow an error. "
+             "distinct = (input kind, records yielded, ended in error)",
+        assumptions=COMMON_ASSUMPTIONS + ["termination is bounded by the finite input; a watchdog firing would be reported as inconclusive"],
+        quick=plans(dict(build="dbg", nshards=16), dict(build="miri", nshards=4, timeout=900)),
+        thorough=plans(dict(build="dbg", nshards=16), dict(build="rel", nshards=16), dict(build="asan", nshards=16, scale=0.2), dict(build="miri", nshards=16, timeout=3000)),
+        min_evaluations=50000,
+    ),
+    "C25": dict(
+        technique="trees of real files on disk parsed by zone_file::fs::Parser; expected = F's generating record list with file "
+                  "and line attribution; second reference = quandary's stream parser on the textual flattening",
+        rule="trees of 1-6 files in ./, sub/, sub/deeper/, other/ (each file included once, relative paths with ../, quoted or "
+             "not), directive origins present/absent, $TTL lines and blank-owner / omitted-TTL / omitted-class records right "
+             "after an include, depth limits 0-4 around the depth the tree needs. distinct = (files, depth needed, limit, too deep)",
+        assumptions=COMMON_ASSUMPTIONS + ["files are written under /verif/work (removed afterwards)", "IN WKS values are not compared here (known finding of C23)"],
+        quick=plans(dict(build="dbg", nshards=16)),
+        thorough=plans(dict(build="dbg", nshards=16), dict(build="rel", nshards=16), dict(build="asan", nshards=16, scale=0.2)),
+        min_evaluations=1000,
+    ),
     "C26": dict(
         technique="history monitor over virtual time: the verif_hooks time-shift hook ages every bucket under its own lock; "
                   "each response is classified sent/slipped/dropped at the handle_message boundary and compared step by step "
